@@ -22,7 +22,7 @@ NOT_APPLICABLE = {
     'C06': 'frequency-domain approximation-error statement about an IIR filter with exp/cos; no float semantics in Verus, CBMC libm models are non-deterministic (DESIGN.md section 6)',
     'C13': 'same as C06 plus powf and a stability claim (DESIGN.md section 6)',
 }
-for _p in ['C01', 'C04', 'C05', 'C07', 'C08', 'C09', 'C10', 'C11', 'C12', 'C14', 'C15', 'C16', 'C17', 'C18', 'C19']:
+for _p in ['C01', 'C04', 'C05', 'C07', 'C10', 'C11', 'C12', 'C14', 'C15', 'C16', 'C17', 'C18', 'C19']:
     NOT_APPLICABLE[_p] = PENDING
 
 PROPS = {
@@ -37,6 +37,25 @@ PROPS = {
         ],
         'trusted_base': [],
         'not_decided': [],
+    },
+    'C09': {
+        'technique': 'Verus contracts on the extracted text of DurationEstimator::{create_with_alignment, estimate_duration_with_frame_length} and Labels::new; Kani-checked hole contracts and float lemma L3',
+        'level_text': 'unbounded deductive proof (Verus/z3) that every known-end label closes a group fitted to (end - frames so far), every state gets >= 1 frame, all labels contribute all states and trailing labels fall back to model durations; round() identity (L3) by a loop-free Kani lemma',
+        'level_note': 'holes (iterator chains, casts) abstracted by contracts that Kani checks on fixed sizes N<=3 (bounded); usize overflow of frame sums excluded by precondition; float operations uninterpreted in Verus',
+        'verus': ['duration'],
+        'assumptions': ['sums_fit / al_fc <= usize::MAX: machine-integer overflow of frame totals excluded by precondition',
+                        'axiom_vec_len_bound: a Vec length is a usize'],
+        'trusted_base': [],
+        'not_decided': [],
+    },
+    'C08': {
+        'technique': 'Verus contracts on the extracted text of DurationEstimator::{create, estimate_duration_with_frame_length}; Kani float lemmas L1, L2 and hole contracts',
+        'level_text': 'unbounded deductive proof (Verus/z3) of totals and floors for every parameter sequence and speed; per-element rounding facts by loop-free Kani lemmas over all f64',
+        'level_note': 'monotonicity in speed rests on the ASSUMED monotonicity of IEEE division (L4 not discharged); holes bounded N<=3; overflow of the frame total excluded by precondition',
+        'verus': ['duration'],
+        'assumptions': ['L4 (IEEE division monotone in the divisor) assumed, not proved'],
+        'trusted_base': [],
+        'not_decided': ['non-increasing in speed beyond the assumed monotonicity of IEEE division'],
     },
     'C20': {
         'technique': 'Kani native function contracts (requires/ensures/modifies + proof_for_contract) and loop-free full-domain harnesses on Condition setters/getters',
